@@ -458,6 +458,42 @@ def pixman_malloc_ab_plus_c (a : Int) (b : Int) (c : Int) : Int × Int :=
 def color_to_uint32 (color_red : Nat) (color_green : Nat) (color_blue : Nat) (color_alpha : Nat) : Nat :=
   (((((color_alpha >>> 8) <<< 24) ||| ((color_red >>> 8) <<< 16)) ||| (color_green &&& 65280)) ||| (color_blue >>> 8)) % 4294967296
 
+/-- `pixman/pixman.c:color_to_pixel` (nat mode).  Arguments: color_red : uint16_t, color_green : uint16_t, color_blue : uint16_t, color_alpha : uint16_t, pixel : uint32_t, format : uint32_t.  Result: (return : int32_t, pixel : uint32_t). -/
+def color_to_pixel (color_red : Nat) (color_green : Nat) (color_blue : Nat) (color_alpha : Nat) (pixel : Nat) (format : Nat) : Nat × Nat :=
+  let c := color_to_uint32 color_red color_green color_blue color_alpha
+  if (format >>> 16) &&& 63 = 11 then
+    (0, pixel)
+  else
+    if ¬((((((((((((format = 537036936) ∨ (format = 537004168)) ∨ (format = 537102472)) ∨ (format = 537069704)) ∨ (format = 537430152)) ∨ (format = 537397384)) ∨ (format = 537495688)) ∨ (format = 537462920)) ∨ (format = 268567909)) ∨ (format = 268633445)) ∨ (format = 134316032)) ∨ (format = 16846848)) then
+      (0, pixel)
+    else
+      let c := if (format >>> 16) &&& 63 = 3 then
+          ((((c &&& 4278190080) >>> 0) ||| ((c &&& 16711680) >>> 16)) ||| ((c &&& 65280) >>> 0)) ||| (((c &&& 255) <<< 16) % 4294967296)
+        else
+          c
+      let c := if (format >>> 16) &&& 63 = 8 then
+          ((((c &&& 4278190080) >>> 24) ||| ((c &&& 16711680) >>> 8)) ||| (((c &&& 65280) <<< 8) % 4294967296)) ||| (((c &&& 255) <<< 24) % 4294967296)
+        else
+          c
+      let c := if (format >>> 16) &&& 63 = 9 then
+          ((c &&& 4278190080) >>> 24) ||| ((c <<< 8) % 4294967296)
+        else
+          c
+      let c := if format = 16846848 then
+          c >>> 31
+        else
+          if format = 134316032 then
+            let c := c >>> 24
+            c
+          else
+            if (format = 268567909) ∨ (format = 268633445) then
+              let c := convert_8888_to_0565 c
+              c
+            else
+              c
+      let pixel := c
+      (1, pixel)
+
 /-- `pixman/pixman-glyph.c:hash` (nat mode).  Arguments: font_key : uint64_t, glyph_key : uint64_t.  Result: (return : uint32_t). -/
 def glyph_hash (font_key : Nat) (glyph_key : Nat) : Nat :=
   let key := (font_key + glyph_key) % 18446744073709551616
@@ -541,8 +577,8 @@ def combine_mask_n (src_i : Nat) : Nat :=
   let s := src_i
   s
 
-/-- `pixman/pixman-combine32.c:combine_src_u` (nat mode).  Arguments: src_i : uint32_t, mask_i : uint32_t, dest_i : uint32_t.  Result: (dest_i : uint32_t). -/
-def combine_src_u_m (src_i : Nat) (mask_i : Nat) (dest_i : Nat) : Nat :=
+/-- `pixman/pixman-combine32.c:combine_src_u` (nat mode).  Arguments: src_i : uint32_t, mask_i : uint32_t.  Result: (dest_i : uint32_t). -/
+def combine_src_u_m (src_i : Nat) (mask_i : Nat) : Nat :=
   let s := combine_mask_m src_i mask_i
   let dest_i := s
   dest_i
@@ -784,8 +820,8 @@ def combine_multiply_u_n (src_i : Nat) (dest_i : Nat) : Nat :=
   let dest_i := d
   dest_i
 
-/-- `pixman/pixman-combine32.c:combine_src_ca` (nat mode).  Arguments: src_i : uint32_t, mask_i : uint32_t, dest_i : uint32_t.  Result: (dest_i : uint32_t). -/
-def combine_src_ca (src_i : Nat) (mask_i : Nat) (dest_i : Nat) : Nat :=
+/-- `pixman/pixman-combine32.c:combine_src_ca` (nat mode).  Arguments: src_i : uint32_t, mask_i : uint32_t.  Result: (dest_i : uint32_t). -/
+def combine_src_ca (src_i : Nat) (mask_i : Nat) : Nat :=
   let s := src_i
   let m := mask_i
   let r1 := combine_mask_value_ca s m
@@ -973,5 +1009,240 @@ def combine_multiply_ca (src_i : Nat) (mask_i : Nat) (dest_i : Nat) : Nat :=
   let r := Combine32Macros.UN8x4_ADD_UN8x4 r d
   let dest_i := r
   dest_i
+
+/-- stage 1 of `compute_image_info`: new value of (flags) -/
+def compute_image_info_s1 (t00 : Int) (t11 : Int) (flags : Nat) : Nat :=
+  if (t00 = (-65536)) ∧ (t11 = (-65536)) then
+    flags ||| 2097152
+  else
+    flags
+
+/-- stage 2 of `compute_image_info`: new value of (flags) -/
+def compute_image_info_s2 (t20 : Int) (t21 : Int) (t22 : Int) (flags : Nat) (t01 : Int) (t10 : Int) (t00 : Int) (t11 : Int) : Nat :=
+  if ((t20 = 0) ∧ (t21 = 0)) ∧ (t22 = 65536) then
+    let flags := flags ||| 131072
+    if (t01 = 0) ∧ (t10 = 0) then
+      let flags := compute_image_info_s1 t00 t11 flags
+      let flags := flags ||| 1024
+      flags
+    else
+      if (t00 = 0) ∧ (t11 = 0) then
+        let m01 := t01
+        let m10 := t10
+        if (m01 = (-65536)) ∧ (m10 = 65536) then
+          let flags := flags ||| 1048576
+          flags
+        else
+          if (m01 = 65536) ∧ (m10 = (-65536)) then
+            let flags := flags ||| 4194304
+            flags
+          else
+            flags
+      else
+        flags
+  else
+    flags
+
+/-- stage 3 of `compute_image_info`: new value of (flags) -/
+def compute_image_info_s3 (t00 : Int) (flags : Nat) : Nat :=
+  if t00 > 0 then
+    flags ||| 65536
+  else
+    flags
+
+/-- stage 4 of `compute_image_info`: new value of (flags) -/
+def compute_image_info_s4 (transform : Nat) (flags : Nat) (t20 : Int) (t21 : Int) (t22 : Int) (t01 : Int) (t10 : Int) (t00 : Int) (t11 : Int) : Nat :=
+  if transform = 0 then
+    flags ||| 458753
+  else
+    let flags := flags ||| 4096
+    let flags := compute_image_info_s2 t20 t21 t22 flags t01 t10 t00 t11
+    let flags := compute_image_info_s3 t00 flags
+    if t10 = 0 then
+      let flags := flags ||| 262144
+      flags
+    else
+      flags
+
+/-- stage 5 of `compute_image_info`: new value of (flags) -/
+def compute_image_info_s5 (sw1 : Nat) (flags : Nat) (t00 : Int) (t01 : Int) (t02 : Int) (t10 : Int) (t11 : Int) (t12 : Int) : Nat :=
+  if (sw1 = 3) ∨ (sw1 = 0) then
+    flags ||| 2052
+  else
+    if ((sw1 = 4) ∨ (sw1 = 1)) ∨ (sw1 = 2) then
+      let flags := flags ||| 524292
+      if flags &&& 1 ≠ 0 then
+        let flags := flags ||| 2048
+        flags
+      else
+        if flags &&& 131072 ≠ 0 then
+          if ((sbor (sbor (sbor (sbor (sbor t00 t01) t02) t10) t11) t12) % 65536 = 0) ∧ (Int.tmod ((sband (s32 (t00 + t01)) (s32 (t10 + t11))) / 65536) 2 = 1) then
+            let magic_limit := 1966080000
+            if (((t02 ≤ magic_limit) ∧ (t12 ≤ magic_limit)) ∧ (t02 ≥ -magic_limit)) ∧ (t12 ≥ -magic_limit) then
+              let flags := flags ||| 2048
+              flags
+            else
+              flags
+          else
+            flags
+        else
+          flags
+    else
+      if sw1 = 5 then
+        flags
+      else
+        if sw1 = 6 then
+          let flags := flags ||| 67108864
+          flags
+        else
+          let flags := flags ||| 4
+          flags
+
+/-- stage 6 of `compute_image_info`: new value of (flags) -/
+def compute_image_info_s6 (sw2 : Nat) (flags : Nat) : Nat :=
+  if sw2 = 0 then
+    flags ||| 16408
+  else
+    if sw2 = 3 then
+      let flags := flags ||| 49160
+      flags
+    else
+      if sw2 = 2 then
+        let flags := flags ||| 49168
+        flags
+      else
+        let flags := flags ||| 32792
+        flags
+
+/-- stage 7 of `compute_image_info`: new value of (flags) -/
+def compute_image_info_s7 (component_alpha : Int) (flags : Nat) : Nat :=
+  if component_alpha ≠ 0 then
+    flags ||| 256
+  else
+    flags ||| 512
+
+/-- stage 8 of `compute_image_info`: new value of (code, flags) -/
+def compute_image_info_s8 (width : Int) (height : Int) (repeat_ : Nat) (filter : Nat) (format : Nat) (flags : Nat) : Nat × Nat :=
+  if ((((width = 1) ∧ (height = 1)) ∧ (repeat_ ≠ 0)) ∧ (filter ≠ 5)) ∧ (filter ≠ 6) then
+    let code := 65536
+    (code, flags)
+  else
+    if (width ≤ 0) ∨ (height ≤ 0) then
+      let code := 262144
+      (code, flags)
+    else
+      let code := format
+      let flags := flags ||| 33554432
+      (code, flags)
+
+/-- stage 9 of `compute_image_info`: new value of (flags) -/
+def compute_image_info_s9 (format : Nat) (flags : Nat) (repeat_ : Nat) : Nat :=
+  if (((((format >>> 12) &&& 15) <<< ((format >>> 22) &&& 3)) % 4294967296 = 0) ∧ ((format >>> 16) &&& 63 ≠ 5)) ∧ ((format >>> 16) &&& 63 ≠ 4) then
+    let flags := flags ||| 128
+    if repeat_ ≠ 0 then
+      let flags := flags ||| 8192
+      flags
+    else
+      flags
+  else
+    flags
+
+/-- stage 10 of `compute_image_info`: new value of (flags) -/
+def compute_image_info_s10 (read_func : Nat) (write_func : Nat) (flags : Nat) : Nat :=
+  if (read_func ≠ 0) ∨ (write_func ≠ 0) then
+    flags &&& 4294967263
+  else
+    flags
+
+/-- stage 11 of `compute_image_info`: new value of (code, flags) -/
+def compute_image_info_s11 (sw3 : Nat) (solid_alpha : Nat) (flags : Nat) (width : Int) (height : Int) (repeat_ : Nat) (filter : Nat) (format : Nat) (read_func : Nat) (write_func : Nat) (radial_a_nonneg : Int) (n_stops : Int) (stop_alpha : Nat → Nat) : Nat × Nat :=
+  if sw3 = 4 then
+    let code := 65536
+    if Int.ofNat solid_alpha = 65535 then
+      let flags := flags ||| 8192
+      (code, flags)
+    else
+      (code, flags)
+  else
+    if sw3 = 0 then
+      let j4 := compute_image_info_s8 width height repeat_ filter format flags
+      let code := j4.1
+      let flags := j4.2
+      let flags := compute_image_info_s9 format flags repeat_
+      let flags := compute_image_info_s10 read_func write_func flags
+      if (((((((format >>> 12) &&& 15) <<< ((format >>> 22) &&& 3)) % 4294967296 > 8) ∨ ((((format >>> 8) &&& 15) <<< ((format >>> 22) &&& 3)) % 4294967296 > 8)) ∨ ((((format >>> 4) &&& 15) <<< ((format >>> 22) &&& 3)) % 4294967296 > 8)) ∨ ((((format >>> 0) &&& 15) <<< ((format >>> 22) &&& 3)) % 4294967296 > 8)) ∨ ((format >>> 16) &&& 63 = 10) then
+        let flags := flags &&& 4294967231
+        (code, flags)
+      else
+        (code, flags)
+    else
+      if sw3 = 3 then
+        let code := 262144
+        if radial_a_nonneg ≠ 0 then
+          (code, flags)
+        else
+          let code := 262144
+          if repeat_ ≠ 0 then
+            let flags := flags ||| 8192
+            if anyBelow n_stops (fun i_n => decide (Int.ofNat (stop_alpha i_n) ≠ 65535)) = true then
+              let flags := flags &&& 4294959103
+              (code, flags)
+            else
+              (code, flags)
+          else
+            (code, flags)
+      else
+        if (sw3 = 2) ∨ (sw3 = 1) then
+          let code := 262144
+          if repeat_ ≠ 0 then
+            let flags := flags ||| 8192
+            if anyBelow n_stops (fun i_n => decide (Int.ofNat (stop_alpha i_n) ≠ 65535)) = true then
+              let flags := flags &&& 4294959103
+              (code, flags)
+            else
+              (code, flags)
+          else
+            (code, flags)
+        else
+          let code := 262144
+          (code, flags)
+
+/-- stage 12 of `compute_image_info`: new value of (flags) -/
+def compute_image_info_s12 (alpha_map : Nat) (itype : Nat) (flags : Nat) (alpha_map_format : Nat) : Nat :=
+  if (alpha_map = 0) ∨ (itype ≠ 0) then
+    flags ||| 2
+  else
+    if (((((((alpha_map_format >>> 12) &&& 15) <<< ((alpha_map_format >>> 22) &&& 3)) % 4294967296 > 8) ∨ ((((alpha_map_format >>> 8) &&& 15) <<< ((alpha_map_format >>> 22) &&& 3)) % 4294967296 > 8)) ∨ ((((alpha_map_format >>> 4) &&& 15) <<< ((alpha_map_format >>> 22) &&& 3)) % 4294967296 > 8)) ∨ ((((alpha_map_format >>> 0) &&& 15) <<< ((alpha_map_format >>> 22) &&& 3)) % 4294967296 > 8)) ∨ ((alpha_map_format >>> 16) &&& 63 = 10) then
+      let flags := flags &&& 4294967231
+      flags
+    else
+      flags
+
+/-- stage 13 of `compute_image_info`: new value of (flags) -/
+def compute_image_info_s13 (alpha_map : Nat) (filter : Nat) (component_alpha : Int) (flags : Nat) : Nat :=
+  if (((alpha_map ≠ 0) ∨ (filter = 5)) ∨ (filter = 6)) ∨ (component_alpha ≠ 0) then
+    flags &&& 4294958975
+  else
+    flags
+
+/-- `pixman/pixman-image.c:compute_image_info` (mixed mode).  Arguments: transform : uint64_t, t00 : int32_t, t01 : int32_t, t02 : int32_t, t10 : int32_t, t11 : int32_t, t12 : int32_t, t20 : int32_t, t21 : int32_t, t22 : int32_t, filter : uint32_t, repeat_ : uint32_t, component_alpha : int32_t, itype : uint32_t, solid_alpha : uint16_t, width : int32_t, height : int32_t, format : uint32_t, read_func : uint64_t, write_func : uint64_t, radial_a_nonneg : int32_t, n_stops : int32_t, stop_alpha : uint16_t, alpha_map : uint64_t, alpha_map_format : uint32_t.  Result: (flags_out : uint32_t, code_out : uint32_t). -/
+def compute_image_info (transform : Nat) (t00 : Int) (t01 : Int) (t02 : Int) (t10 : Int) (t11 : Int) (t12 : Int) (t20 : Int) (t21 : Int) (t22 : Int) (filter : Nat) (repeat_ : Nat) (component_alpha : Int) (itype : Nat) (solid_alpha : Nat) (width : Int) (height : Int) (format : Nat) (read_func : Nat) (write_func : Nat) (radial_a_nonneg : Int) (n_stops : Int) (stop_alpha : Nat → Nat) (alpha_map : Nat) (alpha_map_format : Nat) : Nat × Nat :=
+  let flags := 0
+  let flags := compute_image_info_s4 transform flags t20 t21 t22 t01 t10 t00 t11
+  let sw1 := filter
+  let flags := compute_image_info_s5 sw1 flags t00 t01 t02 t10 t11 t12
+  let sw2 := repeat_
+  let flags := compute_image_info_s6 sw2 flags
+  let flags := compute_image_info_s7 component_alpha flags
+  let flags := flags ||| 96
+  let sw3 := itype
+  let j5 := compute_image_info_s11 sw3 solid_alpha flags width height repeat_ filter format read_func write_func radial_a_nonneg n_stops stop_alpha
+  let code := j5.1
+  let flags := j5.2
+  let flags := compute_image_info_s12 alpha_map itype flags alpha_map_format
+  let flags := compute_image_info_s13 alpha_map filter component_alpha flags
+  let flags_out := flags
+  let code_out := code
+  (flags_out, code_out)
 
 end Pixman.Gen.CFuncs
